@@ -8,8 +8,8 @@
  *   idx%10 in 0..4  product family.  e = idx/10*5 + idx%10 walks a fixed bijective shuffle of the
  *                   18^3 shape triples (m,k,n in 0..17) x 4 value scales {1e-6, 1, 1e6, mixed}:
  *                   23328 consecutive e values enumerate the whole grid once (any 5832 consecutive
- *                   e values enumerate every shape triple once).  thorough = 300000 product cases =
- *                   12.8 passes; quick = 25000 = the whole grid once.
+ *                   e values enumerate every shape triple once).  thorough = 1500000 product cases =
+ *                   64 passes; quick = 50000 = the whole grid twice.
  *   idx%10 in 5,6   matrix kernels (transpose, trace, norms, column/row statistics, covariance, sort)
  *   idx%10 == 7     vector kernels
  *   idx%10 in 8,9   tensor kernels (1..4 slices)
@@ -31,7 +31,7 @@
 #define NE (4 * NT)
 #define POISON 777.25
 
-static long ncases(int tier) { return tier ? 600000 : 50000; }
+static long ncases(int tier) { return tier ? 3000000 : 100000; }
 
 enum { MX_PROD, MX_PROD_PLAIN, MX_PROD_UNR, MX_LAW_T, MX_LAW_DIST, MX_MATVEC, MX_VECMAT, MX_OUTER, MX_TRACE, MX_NORM,
        MX_NORMALIZE, MX_COLAVG, MX_ROWAVG, MX_COLSD, MX_COLVAR, MX_COLRMS, MX_CENTER, MX_COV, MX_PSD, MX_VDOT, MX_VMOD,
@@ -271,9 +271,8 @@ static void col_reference(matrix *m, size_t j, colref *o)
 static int mean_ok(int which, double got, const colref *r, size_t n, int *snapped)
 {
   *snapped = 0;
-  if (near_(which, got, r->mean, r->sumabs / n)) return 1;
-  if (r->maysnap && got == 0) { *snapped = 1; return 1; }
-  return 0;
+  if (r->maysnap && got == 0 && r->mean != 0) { *snapped = 1; return 1; }   /* the documented alternative; not a rounding deviation */
+  return near_(which, got, r->mean, r->sumabs / n);
 }
 
 static size_t g_w;
@@ -419,7 +418,8 @@ static void case_matrix(vh_ctx *c)
         s /= (r - 1); sa /= (r - 1);
         di = cr[i].maysnap ? cr[i].mean : 0; dj = cr[j].maysnap ? cr[j].mean : 0;
         /* centred sums vanish, so a zero-snapped mean matters only when both columns are snapped: + r/(r-1) m_i m_j */
-        ok = near_(MX_COV, CM->data[i][j], s, sa) || (di != 0 && dj != 0 && near_(MX_COV, CM->data[i][j], s + f * di * dj, sa));
+        if (di != 0 && dj != 0 && fabsl((ld)CM->data[i][j] - (s + f * di * dj)) < fabsl((ld)CM->data[i][j] - s)) s += f * di * dj;   /* the nearer of the two documented values */
+        ok = near_(MX_COV, CM->data[i][j], s, sa);
         if (!ok) { vh_fail(c, "MatrixCovariance|value", "cov[%zu][%zu] = %.17g expected %.17Lg (%zux%zu)", i, j, CM->data[i][j], s, r, w); bad = 1; break; }
         if (memcmp(&CM->data[i][j], &CM->data[j][i], sizeof(double)) && !near_(MX_COV, CM->data[i][j], (ld)CM->data[j][i], sa)) { vh_fail(c, "MatrixCovariance|law-symmetric", "cov[%zu][%zu] = %.17g but cov[%zu][%zu] = %.17g", i, j, CM->data[i][j], j, i, CM->data[j][i]); bad = 1; break; }
       }
